@@ -141,7 +141,11 @@ int ADtest(int n, double *x, double *outputs)
 
     /* Store outputs */
     outputs[0] = -n+z/n;
-    outputs[1] = 1.-AD(n, -n+z/n);
+
+    /* The approximation AD(n, z) can leave [0, 1] by a few 1e-6
+     * (e.g. very regular samples): keep the p-value a probability */
+    t = 1.-AD(n, -n+z/n);
+    outputs[1] = t<0. ? 0. : t>1. ? 1. : t;
 
     return 0;
  }
